@@ -1,7 +1,7 @@
 import json, os
 
 SPEC = {
-    "lean_modules": ["SemaModel.C20.Props", "SemaModel.C20.Formula", "SemaModel.C20.FormulaPQ", "SemaModel.C20.FormulaBQ"],
+    "lean_modules": ["SemaModel.C20.Props", "SemaModel.C20.Formula", "SemaModel.C20.FormulaPQ", "SemaModel.C20.FormulaPQFit", "SemaModel.C20.FormulaBQ"],
     "lean_dirs": ["SemaModel/C20"],
     "harness": "c20",
     "harness_args": {"quick": [], "thorough": ["-full"]},
@@ -15,6 +15,8 @@ SPEC = {
     "required_theorems": [
         # formula theorems (Formula.lean, FormulaPQ.lean; notes/T1ext.md section 8): the expression trees generated from distance.go, puredist.go, product.go
         "Sema.C20.dot_distance_formula", "Sema.C20.cosine_distance_formula", "Sema.C20.haversine_formula", "Sema.C20.haversine_formula_pair", "Sema.C20.dot_pure_formula", "Sema.C20.l2_pure_formula", "Sema.C20.cosine_pure_formula", "Sema.C20.dot_distance_pure_formula", "Sema.C20.pq_centroidDistIdx_formula", "Sema.C20.pq_flatCentroidSlice_formula", "Sema.C20.pq_distance_from_float_formula", "Sema.C20.pq_distance_from_point_formula", "Sema.C20.pq_table_formula", "Sema.C20.pq_quantised_distance_formula",
+        # what Fit() leaves in the two tables (FormulaPQFit.lean: the per-sub-vector bodies of Fit, generated) and the two quantised distances of a fitted quantiser
+        "Sema.C20.pq_centroid_table_formula", "Sema.C20.pq_flat_centroids_formula", "Sema.C20.pq_fit_tables", "Sema.C20.pq_point_distance_formula", "Sema.C20.pq_float_point_consistent",
         "Sema.C20.bq_distance_from_float_wiring", "Sema.C20.bq_distance_from_point_wiring", "Sema.C20.bq_trained_hamming", "Sema.C20.bq_untrained_float",
         "Sema.C20.encode_length", "Sema.C20.encode_bits", "Sema.C20.encode_padding", "Sema.C20.encode_unfitted",
         "Sema.C20.hamming_eq_bitcount", "Sema.C20.hamming_encode", "Sema.C20.hamming_symm",
